@@ -208,6 +208,35 @@ def type_cases(T, Q, tier):
         lambda: lanes_of(mmul(Mm(), Rot(A(), V('v'), normalise=False))))
     add('axisAngleMatrix(axis,a)', 'helpers', [pV, pA], '*o = axisAngleMatrix(*v, *a);', m4, lambda: lanes_of(Rot(A(), V('v'))))
 
+    # gtx/rotate_vector: slerp of two vectors and the orientation matrix
+    def vslerp():
+        x, y, a = V('x'), V('y'), A()
+        alpha = S.fn('acos', S.dot(x, y))
+        sa = S.fn('sin', alpha)
+        t1 = S.fn('sin', (1 - a) * alpha) / sa
+        t2 = S.fn('sin', a * alpha) / sa
+        return {i: x[i] * t1 + y[i] * t2 for i in range(3)}
+    add('slerp(vec3,vec3,a)', 'helpers', [Par('x', v3), Par('y', v3), pA], '*o = slerp(*x, *y, *a);', v3, vslerp)
+    ko = K('orientation_%s' % tg, [Par('o', m4, False), Par('n', v3), Par('u', v3)], '*o = orientation(*n, *u);', CFG)
+    kor = K('orientation_ref_%s' % tg, [Par('o', m4, False), Par('n', v3), Par('u', v3)],
+            '*o = all(equal(*n, *u, epsilon<%s>())) ? %s(%s(1)) : rotate(acos(dot(*n, *u)), cross(*u, *n));' % (sc.cpp, m4.cpp, sc.cpp), CFG)
+
+    def jor(ctx):
+        name = 'orientation(n,up)<%s>' % tg
+        for kk in (ko, kor):
+            err = ctx.compile_error(kk)
+            if err:
+                return [R.ob(name, 'existence', R.REFUTED, 'cannot be instantiated: ' + err, kernel=kk.source())]
+        a, b = L.out_lanes(ctx, ko, m4), L.out_lanes(ctx, kor, m4)
+        pc = P.PCtx()
+        res = []
+        for lane in sorted(a):
+            st, detail = S.compare(a[lane], b[lane], pc=pc, nan=False)
+            res.append(R.ob('%s[%s]' % (name, lane), 'helpers', st, 'identity when n == up (within epsilon), otherwise rotate(acos(n . up), up x n): ' + detail if st == R.PROVED else detail.replace('the definition', 'rotate(acos(n . up), up x n)'),
+                            where=R.where_of(ctx.fn(ko), a[lane]) if st != R.PROVED else None, kernel=ko.source() + '\n' + kor.source()))
+        return res
+    cs.append(R.Case('orientation(n,up)<%s>' % tg, [ko, kor], jor))
+
     def extract_rot():
         M = Mm()
         E = ident(4, w)
